@@ -85,7 +85,11 @@ class FormulaMaterializerMeta(InterfaceMeta):
 
     def for_data(cls, data: Any, output: Hashable = None) -> type[FormulaMaterializer]:
         datacls = data.__class__
-        input_type = f"{datacls.__module__}.{datacls.__qualname__}"
+        input_type = (
+            datacls.__qualname__  # (built-in types register by their bare name)
+            if datacls.__module__ == "builtins"
+            else f"{datacls.__module__}.{datacls.__qualname__}"
+        )
 
         materializers_supporting_input = []
 
